@@ -117,7 +117,7 @@ Print Assumptions C03_filter_exact_refuted_prefix.
 
 (* [served_ok] cannot be dropped: a served descriptor that carries fields which are not the
    manifest's (the annotations / artifactType of the index entry that points to it -- what a
-   reloaded OCI layout served before fix 53cd0be, audit F1) is judged on those fields; the
+   reloaded OCI layout served before fix fda86b1, audit F1) is judged on those fields; the
    annotation filter follows a manifest without annotations, the type filter drops a manifest
    whose effective type matches. *)
 Theorem C03_filter_exact_refuted_embedded :
